@@ -293,6 +293,7 @@ func checkC08(ctx *Ctx, r *Report) {
 	c08StrictSkeleton(ctx, r, ts)
 	c08StrictElementNull(ctx, r, ts)
 	c08FifthHunt(ctx, r, ts)
+	c08SixthHunt(ctx, r, ts)
 	c12UnionWrapperClassified(ctx, r)
 	c08WholesaleLeafOnly(ctx, r)
 	c09OperatorTable(ctx, r)
@@ -311,6 +312,7 @@ func checkC08(ctx *Ctx, r *Report) {
 	c10CueEmptyCollectionDefault(ctx, r)
 	c08CollapsedUnionKeepsConstraints(ctx, r)
 	c08StrictUnionBranches(ctx, r)
+	_ = c10DefaultCarried(ctx, r) // a union replaced without its default is a required field the strict decoder demands
 }
 
 func checkC13(ctx *Ctx, r *Report) {
@@ -2256,4 +2258,58 @@ func c13ImportMapIsPrinted(info *types.Info, file *ast.File, add *ast.CallExpr) 
 		return true
 	})
 	return printed
+}
+
+// c08SixthHunt — sixth hunt of C08: a field typed by a named optional of a struct (`#MaybeInner: #Inner | null`, declared
+// `type MaybeInner = *Inner`) holds a pointer although the reference itself is not nullable. The struct-reference
+// branches of the validation template and of the strict decoder ask resolveNullableAlias: Validate tests the pointer for
+// nil before it validates what it points to, the decoder allocates the struct at the end of the alias.
+func c08SixthHunt(ctx *Ctx, r *Report, ts *tmplSet) {
+	n := 0
+	for _, site := range []struct {
+		define, cond, needs, rule, what, failure string
+	}{
+		{"type_validate_check", "resolvesToStruct .Type", "!= nil", "skeleton/validate-named-optional-struct-guarded", "type_validate_check validates a reference to a struct",
+			"the struct-reference branch of type_validate_check calls Validate() on the field whatever it holds: for `#MaybeInner: #Inner | null; Root: {mi: #MaybeInner}` (`type MaybeInner = *Inner`) the accepted document {\"mi\": null} makes Root.Validate() panic with a nil pointer dereference"},
+		{"strict_unmarshal_field_type", "resolvesToStruct .InputType", "&", "skeleton/strict-named-optional-struct-allocated", "strict_unmarshal_field_type decodes a reference to a struct",
+			"the struct-reference branch of the strict decoder allocates `Ref{}` for the object the field names: for a named optional (`type MaybeInner = *Inner`) it writes `resource.Mi = MaybeInner{}` — invalid composite literal type, the package does not compile"},
+	} {
+		tree := ts.trees[site.define]
+		if tree == nil {
+			r.Undecided("anchor lost: template %s", site.define)
+			continue
+		}
+		var branch *parse.ListNode
+		walkTmpl(tree.Root, func(m parse.Node) bool {
+			in, ok := m.(*parse.IfNode)
+			if !ok {
+				return true
+			}
+			for _, br := range ifChain(in) {
+				if br.cond != nil && br.body != nil && strings.Contains(br.cond.String(), site.cond) && strings.Contains(br.cond.String(), "IsRef") && branch == nil {
+					branch = br.body
+				}
+			}
+			return true
+		})
+		if branch == nil {
+			r.Undecided("anchor lost: the struct-reference branch of %s", site.define)
+			continue
+		}
+		asks := false
+		walkTmpl(branch, func(m parse.Node) bool {
+			switch x := m.(type) {
+			case *parse.IfNode:
+				if x.Pipe != nil && (strings.Contains(x.Pipe.String(), "resolveNullableAlias") || strings.Contains(x.Pipe.String(), "$throughOptional") || strings.Contains(x.Pipe.String(), "$alias")) && strings.Contains(tmplText(x.List), site.needs) {
+					asks = true
+				}
+			}
+			return true
+		})
+		full := tmplTextFull(branch)
+		n++
+		r.Check(asks && strings.Contains(full, "resolveNullableAlias"), site.rule, site.what, token.NoPos, "a reference that goes through a named optional is recognised (resolveNullableAlias)", site.failure)
+	}
+	r.Count("hunted clauses of the decoding rules (6th hunt)", n)
+	r.Floor("hunted clauses of the decoding rules (6th hunt)", 2)
 }
